@@ -165,7 +165,7 @@ EndSession ==
   /\ ctl.mode \in {"sess", "aborted"} /\ ctl.stack = <<>>
   /\ (EmitScenarios /\ env.sessions = MaxSessions) => PrintT(ToJson(ScenarioRec))
   /\ (ctl.mode = "sess" /\ ~Conform) => (ctl.todo = <<>> /\ (ctl.roots > 0 \/ ctl.inBU))
-  /\ Emit(<<[ev |-> "sess_end", errs |-> ctl.errs, res |-> st.res, dump |-> DumpOf, trk_same |-> TRUE]>>, prog)
+  /\ Emit(<<[ev |-> "sess_end", errs |-> ctl.errs, res |-> st.res, dump |-> DumpOf, trk_same |-> TRUE, ranks |-> RankSeq(st)]>>, prog)
   /\ ctl' = [ctl EXCEPT !.mode = "idle", !.cons = {}]
   /\ UNCHANGED <<prog, env, hist>>
 
@@ -435,9 +435,9 @@ BuRun ==
   /\ ctl' = [ctl EXCEPT !.mode = "sess", !.stack = <<Frame("bu", 0)>>]
   /\ UNCHANGED <<prog, env, hist>>
 
-\* the scheduled tasks that do not (transitively) depend on another scheduled task; the code pops the one of highest
-\* topological rank, which is such a task whenever the ranks respect the edges (C10)
-Least(S) == {t \in S : \A q \in S \ {t} : ~Reach(st, t, q)}
+\* Queue::pop / pop_least_task_with_dependency_from: the scheduled task of highest topological rank (bottom_up.rs:324-358).
+\* It never (transitively) depends on another scheduled task, because the ranks respect the edges (RanksRespectEdges, C10).
+Least(S) == {t \in S : \A q \in S : st.rank[q] <= st.rank[t]}
 
 \* execute_scheduled (bottom_up.rs:54): pop and execute, or finish
 BuLoop ==
@@ -553,6 +553,11 @@ StoreWellFormed ==
   /\ \A u \in TaskIds : \A q \in Range(st.inct[u]) : EdgeIdx(st, q, TRUE, u) # 0
   /\ \A r \in ResIds : \A q \in Range(st.incr[r]) : EdgeIdx(st, q, FALSE, r) # 0
   /\ \A t \in TaskIds : ~Reach(st, t, t)
+
+\* the ranks kept for the store's DAG are a bijection onto 1..n and respect every edge (C10 inside pie)
+RanksRespectEdges ==
+  /\ {st.rank[n] : n \in DOMAIN st.rank} = 1..Cardinality(DOMAIN st.rank)
+  /\ \A t \in TaskIds : \A i \in DOMAIN st.deps[t] : st.rank[t] < st.rank[DepNode(st, st.deps[t][i])]
 
 \* K-findings must be explained by the listed predicates only
 NoKF == kfs = {}
